@@ -23,6 +23,8 @@ type PktSpec struct {
 	Data     []byte // nil/empty: packet without payload
 	// DataRank orders the payload chunks (reassembly order); 0 = packet order
 	DataRank int
+	// EmptyChunk: the packet has no payload and the stream nevertheless lists a payload chunk of size 0 for it
+	EmptyChunk bool
 }
 
 // StreamSpec is the ground truth of one stream handed to the index writer.
@@ -75,7 +77,7 @@ func (s *StreamSpec) ToStream() *streams.Stream {
 			dir = reassembly.TCPDirServerToClient
 		}
 		st.PacketDirections = append(st.PacketDirections, dir)
-		if len(p.Data) != 0 {
+		if len(p.Data) != 0 || p.EmptyChunk {
 			ds = append(ds, d{p.DataRank, i})
 		}
 	}
